@@ -136,8 +136,11 @@ func (w *World) harnesses(prefix string) []string {
 	return out
 }
 
-func (w *World) portfolio(ex *Exec, negated *Term) Verdict {
-	script := ex.solver.Dump(trueT)
+func (w *World) portfolio(ex *Exec, extra *Term) Verdict {
+	if extra == nil {
+		extra = trueT
+	}
+	script := ex.solver.Dump(extra)
 	for _, alt := range []string{"z3-new", "cvc5", "cvc5-int"} {
 		v := RunScript(alt, script, w.timeoutMs*3)
 		if v != Unknown {
@@ -155,7 +158,7 @@ func (w *World) cross(ex *Exec, negated *Term, id string) {
 	}
 	w.crossDone++
 	w.mu.Unlock()
-	script := ex.solver.Dump(trueT)
+	script := ex.solver.Dump(negated)
 	alt := "cvc5"
 	if strings.Contains(script, "FloatingPoint") || strings.Contains(script, "fp.") {
 		alt = "z3-new"
@@ -200,6 +203,7 @@ type HarnessResult struct {
 	Witness     int
 	Samples     []map[string]interface{}
 	MaxSteps    int
+	Pruned      int
 }
 
 type task struct{ prefix []*Decision }
@@ -306,6 +310,7 @@ func (e *explorer) donate(trail []*Decision, frozen int) {
 		case 'b', 'v':
 			nd := cloneDecision(d)
 			nd.Taken = !d.Taken
+			nd.Unchecked = true
 			mk(nd)
 		case 'c':
 			for c := d.Choice + 1; c < d.N; c++ {
@@ -351,6 +356,7 @@ func (e *explorer) worker() {
 			case 'b', 'v':
 				d.Taken = !d.Taken
 				d.AltOpen = false
+				d.Unchecked = true
 			case 'c':
 				d.Choice++
 				d.AltOpen = d.Choice < d.N-1
@@ -370,6 +376,7 @@ func (e *explorer) worker() {
 	e.res.Solver.Errors += st.Errors
 	e.res.Solver.Queries += st.Queries
 	e.res.Solver.Time += st.Time
+	e.res.Solver.OneShot += st.OneShot
 	for k := range ex.funcsSeen {
 		e.res.Funcs[k] = true
 	}
@@ -406,6 +413,10 @@ func (e *explorer) record(ex *Exec, ps PathStat) {
 	e.mu.Lock()
 	defer e.mu.Unlock()
 	r := e.res
+	if ps.Kind == "infeasible" {
+		r.Pruned++
+		return
+	}
 	r.Paths++
 	r.Kinds[ps.Kind]++
 	r.Asserts += ps.Asserts
@@ -435,7 +446,7 @@ func (e *explorer) record(ex *Exec, ps PathStat) {
 	case "done":
 		if ps.Asserts > 0 && ps.Sym && r.Witness < 3 {
 			// reachability witness: the path condition of a path that reached its assertions is satisfiable
-			if ex.solver.Check() == Sat {
+			if v, _ := ex.solver.Solve(nil, nil); v == Sat {
 				r.Witness++
 			}
 		} else if ps.Asserts > 0 && !ps.Sym {
